@@ -19,6 +19,7 @@
 //!   unkeq|unkccmp <rtype> <data> <rtype> <data>       ZoneRecordData::Unknown ==, canonical_cmp
 //!   ipsec <prec> <alg> <gateway wire> <key> (x2)      Ipseckey::canonical_cmp, name gateway
 //!   alleq <rtype> <data> <rtype> <data>, alleqopt <opts> <opts>   AllRecordData ==
+//!   pzone|prrsig <u32> <u32>, pnsec3 <salt> <salt>   partial_cmp of ZONEMD (serial) / RRSIG (expiration) / NSEC3 (salt) differing in that field
 //!   hdr <owner> <rtype> <class> <ttl> <rdlen> (x2)     RecordHeader: `<==> <cmp>`
 //!   rdx <rtype> <field values> | <field values>      typed record data: `<==> <canonical_cmp> <hash tokens>`
 //!   ipsechash <prec> <alg>                            hashing an IPSECKEY without gateway: Ok|Panic
@@ -1009,6 +1010,29 @@ fn svcb_cases(out: &mut Out, r: &mut Rng, n: u64) {
             out.begin(&c);
             out.case(&c, &format!("{}", x == y), true, "alleqopt");
             chk(out, x == x.clone() && y == y.clone(), "all_record_data_eq_not_reflexive", &c, "AllRecordData::Opt value is not equal to itself");
+        }
+    }
+    // PartialOrd of ZONEMD / RRSIG / NSEC3 on the one field where it is written differently from Ord
+    let oo = |o: Option<Ordering>| match o { Some(x) => ord(x).to_string(), None => "None".to_string() };
+    const EXT: [u32; 10] = [0, 1, 0x7FFF_FFFE, 0x7FFF_FFFF, 0x8000_0000, 0x8000_0001, 0xFFFF_FFFE, 0xFFFF_FFFF, 0x1234_5678, 0x9234_5678];
+    for _ in 0..n {
+        let a = if r.chance(2, 3) { *r.pick(&EXT) } else { r.u32() };
+        let b = match r.below(5) { 0 => a, 1 => a.wrapping_add(0x8000_0000), 2 => a.wrapping_add(0x7FFF_FFFF + r.below(3) as u32), 3 => *r.pick(&EXT), _ => r.u32() };
+        let z = |s: u32| { let mut v = s.to_be_bytes().to_vec(); v.extend_from_slice(&[1, 1]); v.extend_from_slice(&[7u8; 12]); v };
+        if let (Some(x), Some(y)) = (parse_rd(63, &z(a)), parse_rd(63, &z(b))) {
+            let c = format!("pzone {} {}", a, b); out.begin(&c);
+            out.case(&c, &oo(x.partial_cmp(&y)), a != b, "pzone");
+        }
+        let g = |e: u32| { let mut v = vec![0, 1, 8, 2, 0, 0, 0, 9]; v.extend_from_slice(&e.to_be_bytes()); v.extend_from_slice(&[0, 0, 0, 5, 0, 7, 1, b'a', 0, 9]); v };
+        if let (Some(x), Some(y)) = (parse_rd(46, &g(a)), parse_rd(46, &g(b))) {
+            let c = format!("prrsig {} {}", a, b); out.begin(&c);
+            out.case(&c, &oo(x.partial_cmp(&y)), a != b, "prrsig");
+        }
+        let (s1, s2) = { let s1 = gen_small(r, 0, 3); let s2 = if r.chance(1, 3) { s1.clone() } else { near_octets(r, &s1, 0, 6) }; (s1, s2) };
+        let h = |s: &Vec<u8>| { let mut v = vec![1, 0, 0, 5, s.len() as u8]; v.extend_from_slice(s); v.extend_from_slice(&[1, 9]); v };
+        if let (Some(x), Some(y)) = (parse_rd(50, &h(&s1)), parse_rd(50, &h(&s2))) {
+            let c = format!("pnsec3 {} {}", hex(&s1), hex(&s2)); out.begin(&c);
+            out.case(&c, &oo(x.partial_cmp(&y)), s1 != s2, "pnsec3");
         }
     }
     // TSIG and OPT (pseudo record types) through AllRecordData: canonical order against the canonical form
